@@ -80,7 +80,7 @@ pub fn ids(thorough: bool) -> Report {
     let max = if thorough { 4 } else { 3 };
     let mut r = Report::new(
         "assumption check for the regex shim: the real FromStr of LayerName/ProcessType/BuildpackId/ExecDProgramOutputKey (macro + fancy_regex) against the executable CNB grammars on all strings over one representative per character class, plus the reserved words with one character added/removed; non-trivial = strings accepted by at least one type",
-        &format!("length <= {max} over {{a Z 7 . _ / - + space newline é NUL}}; reserved words +- one char"),
+        &format!("length <= {max} over {{a Z 7 . _ / - + space newline é NUL}}; reserved words +- one char; every ASCII byte alone / beside a letter"),
     );
     let alpha = ['a', 'Z', '7', '.', '_', '/', '-', '+', ' ', '\n', 'é', '\0'];
     let mut check = |s: &str, r: &mut Report| {
@@ -99,6 +99,8 @@ pub fn ids(thorough: bool) -> Report {
         if let Ok(v) = s.parse::<LayerName>() { if v.to_string() != s || v.as_str() != s { r.violation("newtype_display", "accepted value does not render identically", format!("{s:?}"), s.to_string(), v.to_string()); } }
     };
     strings(&alpha, max, &mut |s| check(s, &mut r));
+    // every single ASCII byte alone and next to a letter (character-class edges such as the punctuation between 'Z' and 'a')
+    for b in 0u8..128 { let c = b as char; check(&c.to_string(), &mut r); check(&format!("a{c}"), &mut r); check(&format!("{c}a"), &mut r); check(&format!("A{c}0"), &mut r); }
     for w in ["build", "launch", "store", "app", "config", "sbom"] {
         check(w, &mut r);
         check(&w[1..], &mut r);
